@@ -587,6 +587,8 @@ def run(chk, F):
         "Dora code is analysed syntactically (receiver paths self.data / mtx / self.asm)",
     ]
     rule_r9(chk, F)
+    from rules import c09_probe
+    c09_probe.run(chk, F)
     from rules import a64; a64.run_c09(chk, F)  # noqa: E702  arm64 siblings (aarch64 fact set)
 
 
